@@ -19,6 +19,8 @@ META = {
                 "protocol-layer consumption and legal link-command emissions and proves credit conservation, "
                 "in-order exactly-once delivery, LGOOD numbering and LCRD lettering; the real HeaderPacketReceiver "
                 "is driven word by word by a link-partner model with TLC-generated and seeded-random histories and "
+                "with header arrivals / consumption / LRTY / request strobes / stalls at every cycle offset around each "
+                "of its own link-command transmissions, each run ending in a drain + quiescence check, and "
                 "every recorded event (header words, consumed headers, every transmitted link command) is validated "
                 "by TLC, which also decides the CRC validity of every logged header / command bit-serially.",
         "note": "Assumes the partner only sends an acceptable header while it holds a credit, answers LBAD with LRTY "
@@ -604,9 +606,9 @@ def rx_classify(trace, matched, status, meta):
 # =====================================================================================================
 RX_MC = {  # (property, tier) -> list of (NBuf, MaxAcc, MaxEpochs, Deltas, WithReqs)
     ("C37", "quick"): [(4, 5, 1, "{0, 1}", "FALSE")],
-    ("C37", "thorough"): [(4, 6, 1, "{0, 1, 7}", "FALSE"), (2, 4, 1, "{0, 1}", "TRUE")],
+    ("C37", "thorough"): [(4, 6, 1, "{0, 1, 7}", "FALSE"), (2, 4, 1, "{0, 1}", "TRUE")],        # 25 k + 17 k states
     ("C38", "quick"): [(2, 2, 2, "{0, 1}", "TRUE")],
-    ("C38", "thorough"): [(2, 3, 3, "{0, 1}", "TRUE"), (4, 4, 2, "{0}", "TRUE")],
+    ("C38", "thorough"): [(2, 3, 2, "{0, 1}", "TRUE"), (4, 3, 2, "{0}", "TRUE")],             # 111 k + 132 k states
 }
 
 
@@ -1277,7 +1279,7 @@ def _tx_nontriv(rep, trace):
 
 
 TX_MC = {"quick": [(4, 5, 2, "{0, 1}")],
-         "thorough": [(2, 3, 2, "{0, 1, 2}"), (4, 5, 1, "{0, 1}"), (4, 4, 2, "{0, 1}")]}
+         "thorough": [(2, 3, 2, "{0, 1, 2}"), (4, 6, 2, "{0, 1}")]}                               # 6 k + 108 k states
 
 META["C39"] = {
     "text": "Event-grain TLA+ reference of USB3 header transmission [USB3.2 7.2.4.1] (credits, next sequence number, "
@@ -1368,9 +1370,9 @@ def rx_event_sweeps(bench, rep, quick):
             if e is None:
                 continue
             cmd = P.parse_link_command_word(w)
-            for c in range(s - 3, e + 3):
+            for c in range(s - 3, e + 3) if not quick else range(s - 2, e + 2):
                 for evx in events:
-                    if quick and evx[0] in ("stall", "lrty") and (c - s) % 2:
+                    if quick and evx[0] in ("stall", "lrty", "pulse") and (c - s) % 2:
                         continue
                     # a header *arrives* with its 5th word (plus the separating idle word)
                     at = c - 5 if evx[0] == "hdr" else (c - 1 if evx[0] == "lrty" else c)
